@@ -229,10 +229,10 @@ func (f *Frame) binop(x *ssa.BinOp) AV {
 		}
 	case token.AND:
 		// x & (2^k - 1) = x mod 2^k ; x & 2^k tested against 0 handled in compare
-		if yConst && cy > 0 && (cy&(cy+1)) == 0 && len(inherit) == 0 && nonNeg(ax.a) {
+		if yConst && cy > 0 && (cy&(cy+1)) == 0 && len(inherit) == 0 && f.nonNegHere(ax.a) {
 			return AInt{a: f.modAff(ax.a, cy+1)}
 		}
-		if yConst && cy > 0 && (cy&(cy-1)) == 0 && len(inherit) == 0 && nonNeg(ax.a) {
+		if yConst && cy > 0 && (cy&(cy-1)) == 0 && len(inherit) == 0 && f.nonNegHere(ax.a) {
 			// single-bit mask: result is 0 or 2^k; bit = floor(x/2^k) mod 2
 			bit := f.modAff(affSym(f.divSym(ax.a, cy)), 2)
 			return AInt{a: bit.scale(cy)}
